@@ -37,9 +37,15 @@ A_TXT = "self._array[index]"
 
 def run(ctx):
     summ = r1_extract(ctx)
-    r2_typestate(ctx, summ)
+    opaque = [h for h in HELPERS if summ[h]["A"] is None or summ[h]["L"] is None]
+    if opaque:
+        # a helper without one constant effect on A and L (already reported by R1) has no summary the typestate / invariant rules could apply
+        ctx.note(f"C19.R2/R4 skipped: no protocol summary for {opaque} (reported by C19.R1)")
+    else:
+        r2_typestate(ctx, summ)
     r3_guarded_by(ctx)
-    r4_invariant(ctx, summ)
+    if not opaque:
+        r4_invariant(ctx, summ)
     r6_failed_population(ctx)
     r7_callers(ctx)
     r8_slot_index(ctx)
@@ -377,7 +383,7 @@ def r3_guarded_by(ctx):
                 n += 1
                 inside = any(isinstance(a, ast.With) and any(unparse(i.context_expr) == "self._lock" for i in a.items) for a in ancestors(x))
                 ctx.ob("C19.R3", CCH, f"ConcurrentCacher.{mname}", x, "waiting happens outside the lock", not inside)
-    ctx.floor("C19.R3", "shared-state updates and sleeps", n, 12)
+    ctx.floor("C19.R3", "shared-state updates and sleeps", n, 8)
 
 
 # ------------------------------------------------------------------------------------------ R4
